@@ -39,6 +39,11 @@ theorem started_of_launched {P : Program} {d : DagRef} {val : Node → Option Va
   | doneOk h1 => exact h1
   | doneExc e h1 => exact h1
   | doneExcSaved e h1 => exact h1
+  | cbStart => simp [isRunnable] at hr
+  | cbRetry => simp [isRunnable] at hr
+  | cbOk => simp [isRunnable] at hr
+  | cbFail => simp [isRunnable] at hr
+  | cbSave => simp [isRunnable] at hr
 
 /-- **C06 (plain pipelines)**: in an idle state of a pending run, every node whose lower depths have all completed
 has been started, whatever the other nodes of its depth are doing -/
@@ -48,7 +53,13 @@ theorem C06_plain_next_depth_started (P : Program) (d : DagRef) (hp : PlainP P d
     (hord : LaunchByDepth d depth s)
     (n : Node) (hn : n ∈ d.nodes) (hlow : ∀ m ∈ d.nodes, depth m < depth n → (s.res m).isSome = true) :
     s.proc n = true := by
-  have hinv := pinv_live (val := fun _ => none) hp h hpending
+  have hinv : PInv P d (fun _ => none) s := by
+    rcases pinv_live (val := fun _ => none) hp h hpending with hinv | ⟨o, hfin⟩
+    · exact hinv
+    · -- finishing phase: the caller is runnable, the state is not idle
+      obtain ⟨j, mc, hc0⟩ := hfin.caller
+      have := hidle _ _ hc0
+      simp [isRunnable] at this
   rcases hinv.rest with ⟨h1, _⟩ | ⟨L, hlen, ⟨mtk, hm1, hmok⟩, hnodes, hfresh⟩
   · obtain ⟨ctk, hc0, hcok⟩ := hinv.caller
     have hr := hidle _ _ hc0
@@ -56,6 +67,7 @@ theorem C06_plain_next_depth_started (P : Program) (d : DagRef) (hp : PlainP P d
     | start => simp [isRunnable] at hr
     | waiting h2 => omega
     | woken => simp [isRunnable] at hr
+    | cbStart => simp [isRunnable] at hr
   · have hr := hidle _ _ hm1
     cases hmok with
     | init => simp [isRunnable] at hr
@@ -72,12 +84,31 @@ theorem C06_plain_next_depth_started (P : Program) (d : DagRef) (hp : PlainP P d
           · exact Nat.le_refl _
           · exact hord _ m rest hm1 rfl n hrest
         have hmd : m ∈ d.nodes := (ht.same m).mp (by simp)
-        unfold readyP at hnr
-        rw [List.all_eq_false] at hnr
-        obtain ⟨p, hp1, hp2⟩ := hnr
+        -- every source of m has a lower depth, hence a result; its task is launched and — the state being idle —
+        -- not suspended in the artifact store: it is settled
+        apply hnr
+        intro p hp1
         have hpd : p ∈ d.nodes := hp.predsIn m hmd p hp1
-        have := hlow p hpd (Nat.lt_of_lt_of_le (hdepth m hmd p hp1) hmn)
-        exact hp2 this
+        have hres := hlow p hpd (Nat.lt_of_lt_of_le (hdepth m hmd p hp1) hmn)
+        have hpl := ht.preds_launched p hp1
+        obtain ⟨i, hi, rfl⟩ := List.getElem_of_mem hpl
+        obtain ⟨tk, htk, hok⟩ := hnodes i hi
+        have hrr := hidle _ _ htk
+        refine ⟨hres, 2 + i, tk, htk, hok.name_eq.1, ?_⟩
+        cases hok with
+        | fresh => simp [isRunnable] at hrr
+        | inBody _ _ _ _ h2 => rw [h2] at hres; simp at hres
+        | bodyDone => simp [isRunnable] at hrr
+        | sleeping _ _ _ _ _ h2 => rw [h2] at hres; simp at hres
+        | slept => simp [isRunnable] at hrr
+        | cbStart => simp [isRunnable] at hrr
+        | cbRetry => simp [isRunnable] at hrr
+        | cbOk => simp [isRunnable] at hrr
+        | cbFail => simp [isRunnable] at hrr
+        | cbSave => simp [isRunnable] at hrr
+        | doneOk => rfl
+        | doneExc _ _ h2 => rw [h2] at hres; simp at hres
+        | doneExcSaved => rfl
     | waitDest ht => exact started_of_launched hnodes hidle ((ht.same n).mpr hn)
     | done ht => exact started_of_launched hnodes hidle ((ht.same n).mpr hn)
 
